@@ -206,6 +206,60 @@ static void coord_roundtrip(uint64_t idx, vp::Local& L) {
         ++pp;
         l2.set_lat_partial(&pp);
         VP_CHECK(l2 == loc && *pp == '\0', "coord-roundtrip", "partial setters differ on " << q(both));
+        // the full setters must take the whole string
+        if ((idx & 63) == 0)
+        for (const char* tail : {"x", " ", ",1", "e"}) {
+            bool threw = false;
+            try {
+                osmium::Location l3;
+                l3.set_lon((s + tail).c_str());
+            } catch (const osmium::invalid_location&) {
+                threw = true;
+            }
+            VP_CHECK(threw, "coord-accepts-garbage", "set_lon(" << q(s + tail) << ") accepted");
+        }
+        // validity, checked accessors and the order, for (x, 0), (0, x) and (x, x)
+        const int64_t X = x;
+        struct P {
+            int32_t a, b;
+        } const pts[] = {{x, 0}, {0, x}, {x, x}};
+        for (const P& pt : pts) {
+            if ((idx & 63) != 0 && x > -1800000100 && x < 1800000100 && (x < 899999900 || x > 900000100) && (x > -899999900 || x < -900000100)) break;  // (every 64th value, and all values near the limits)
+            const osmium::Location l{pt.a, pt.b};
+            const bool want_valid = pt.a >= -1800000000 && pt.a <= 1800000000 && pt.b >= -900000000 && pt.b <= 900000000;
+            VP_CHECK(l.valid() == want_valid, "loc-valid", "Location(" << pt.a << "," << pt.b << ").valid() = " << l.valid());
+            const bool undef_a = pt.a == 2147483647, undef_b = pt.b == 2147483647;
+            VP_CHECK(l.is_undefined() == (undef_a && undef_b) && l.is_defined() == !(undef_a && undef_b), "loc-valid", "is_defined/is_undefined of Location(" << pt.a << "," << pt.b << ")");
+            bool threw = false;
+            double lon = 0, lat = 0;
+            std::string txt;
+            try {
+                lon = l.lon();
+                lat = l.lat();
+                l.as_string(std::back_inserter(txt), ';');
+            } catch (const osmium::invalid_location&) {
+                threw = true;
+            }
+            VP_CHECK(threw == !want_valid, "loc-valid", "lon()/lat()/as_string() of Location(" << pt.a << "," << pt.b << ") " << (threw ? "threw" : "did not throw"));
+            if (!threw) {
+                VP_CHECK(lon == static_cast<double>(pt.a) / 10000000.0 && lat == static_cast<double>(pt.b) / 10000000.0, "loc-value", "lon()/lat() of Location(" << pt.a << "," << pt.b << ") = " << lon << "/" << lat);
+                std::string want;
+                osmium::Location{pt.a, pt.b}.as_string_without_check(std::back_inserter(want), ';');
+                VP_CHECK(txt == want && txt.find(';') != std::string::npos, "coord-format", "as_string of Location(" << pt.a << "," << pt.b << ") = " << q(txt));
+            }
+            VP_CHECK(l.lon_without_check() == static_cast<double>(pt.a) / 10000000.0 && l.lat_without_check() == static_cast<double>(pt.b) / 10000000.0, "loc-value", "lon/lat_without_check of Location(" << pt.a << "," << pt.b << ")");
+            for (int64_t d : {-1LL, 0LL, 1LL}) {
+                for (const P& o : {P{static_cast<int32_t>(pt.a + d == X + d && pt.a + d >= -2147483648LL && pt.a + d <= 2147483647LL ? pt.a + d : pt.a), pt.b}, P{pt.a, static_cast<int32_t>(pt.b + d >= -2147483648LL && pt.b + d <= 2147483647LL ? pt.b + d : pt.b)}}) {
+                    const osmium::Location m{o.a, o.b};
+                    // ("if either of the locations is undefined the result is undefined")
+                    if (pt.a == 2147483647 || pt.b == 2147483647 || o.a == 2147483647 || o.b == 2147483647) continue;
+                    const auto ka = std::make_pair(pt.a, pt.b), kb = std::make_pair(o.a, o.b);
+                    VP_CHECK((l == m) == (ka == kb) && (l != m) == (ka != kb) && (l < m) == (ka < kb) && (l > m) == (ka > kb) && (l <= m) == (ka <= kb) && (l >= m) == (ka >= kb), "loc-order",
+                             "comparison of Location(" << pt.a << "," << pt.b << ") with Location(" << o.a << "," << o.b << ")");
+                    if (ka == kb) VP_CHECK(std::hash<osmium::Location>{}(l) == std::hash<osmium::Location>{}(m), "loc-order", "equal locations hash differently");
+                }
+            }
+        }
     }
     ++L.nontrivial;
 }
